@@ -121,7 +121,7 @@ def run(pid, replay=None):
     cov = {"states": mc.distinct if mc else 1, "transitions": mc.generated if mc else 1,
            "traces_validated_against_impl": len(res),
            "evaluations": len(res), "distinct_nontrivial": distinct,
-           "rule": "cases = strategies (mode, dc, deviation list) / stall cases (step, caller deadline) printed by TLC from the exhaustively explored "
+           "rule": "cases = strategies (mode, dc, honest DH group, deviation list) / stall cases (step, caller deadline) printed by TLC from the exhaustively explored "
                    "Exchange.tla; each run end to end on the real client and server flows with fresh random keys, nonces and bit positions",
            "samples": [{"case": {k: v for k, v in cases[0].items()}, "observed": res[0]["got"]},
                        {"case": {k: v for k, v in cases[-1].items()}, "observed": res[-1]["got"]}],
